@@ -31,10 +31,11 @@ Verdict(r) ==
          IF ~(WF(a) /\ InRange(a) /\ ~AllDay(a)) THEN "skip"
          ELSE IF r.r = ToEpoch(a) THEN "ok" ELSE "bad"
     [] r.e = "FromEp" ->
-         (* unix time has second resolution: the ms field is not judged *)
+         (* unix time has second resolution: the instant is the whole second (ms field = "all of the second", 1023), not some *)
+         (* millisecond of it                                                                                                  *)
          LET x == FromEpoch(r.t) IN
          IF ~InRange(x) THEN "skip"
-         ELSE IF SubSeq(r.r, 1, 6) = SubSeq(Tup(x), 1, 6) THEN "ok" ELSE "bad"
+         ELSE IF SubSeq(r.r, 1, 6) = SubSeq(Tup(x), 1, 6) /\ r.r[7] = 1023 THEN "ok" ELSE "bad"
     [] r.e = "Tstamp" ->
          LET a == I(r.a) IN
          IF ~(WF(a) /\ InRange(a)) THEN "skip"
